@@ -116,6 +116,10 @@ add("C26", "vcheck", "exploration", SRV,
     "Database names built from a grammar of path-like and special strings (separators raw / encoded / double encoded, dot segments, leading dots, reserved directory names, .bak/.log suffixes, blanks, control and non-ASCII characters) used with add, copy, rename, backup, restore, clear, convert, exec_mut, delete, remove on a fresh server per case, nested five directories below the scratch root; a manifest (path, size, hash) of the whole scratch root before and after every request decides: every changed path lies under data_dir/<owner>/, no file of another database changes, a rejected request changes nothing. Pass A meets the listed known findings (unvalidated names, keyed by the class of the name) and continues; pass B uses plain names only, where every failure is a violation.",
     "The name classes (separator, dot-dot segment, leading dot, reserved name, suffix) are the trigger predicates of the known findings; a failure for a plain name is always reported.", "DESIGN 3/C26, appendix F")
 
+add("C23", "vcheck", "exploration", "stress property testing with generated databases, generated read workloads and a generated perturbation plan for a source hook in the read path (forced contention on the shared file handle); equality with the sequential baseline",
+    "Databases from generated histories on DbFile (and Db at lower weight); 12-40 generated read queries executed by 2-16 threads under a shared RwLock read guard, singly and inside read transactions, 1-3 rounds; threads yield or sleep while holding the guard of the shared file handle (hook H3), which pushes the other readers onto the fresh-handle path (counted: required > 0 for a case to count). Every result must equal the result of the same query run alone before the threads start; a panic in a reader is a failure too.",
+    "The operating system owns the interleaving: the hook forces contention but cannot enumerate schedules, so a race confined to a narrow window can be missed and a failure may not replay bit-for-bit (replay re-runs the saved workload 20 times). Weaker than the other checks by construction. Cases run in child processes with a 90 s watchdog because a corrupted read can send a reader into an endless scan (undecided, not a violation).", "DESIGN 3/C23")
+
 TITLES = {}
 for l in open("/verif/properties.jsonl"):
     pr = json.loads(l)
